@@ -159,7 +159,8 @@ def coq_make(targets, clean=False, timeout=3000):
     ensure_makefile()
     if clean:
         sh("make clean", cwd=COQ, timeout=300)
-    rc, out = sh(["make", f"-j{NPROC}", "-k"] + targets, cwd=COQ, timeout=timeout)
+    # coqc under an address-space limit: a mistyped numeral (a big literal read as nat) once took 60 GB
+    rc, out = sh("ulimit -v 25000000; exec make -j%d -k %s" % (NPROC, " ".join(targets)), cwd=COQ, timeout=timeout)
     return rc == 0, out
 
 
@@ -173,7 +174,7 @@ def props_assumptions(prop):
     vfile = os.path.join(COQ, "props", f"{prop}.v")
     args = ["coqc", "-Q", "gen", "Ragc", "-Q", "model", "Ragc", "-Q", "proofs", "Ragc", "-Q", "props", "Ragc",
             "-Q", "spec", "Ragc", "-w", "-notation-overridden,-deprecated-hint-without-locality,-deprecated-instance-without-locality,-deprecated-syntactic-definition", f"props/{prop}.v"]
-    rc, out = sh(args, cwd=COQ, timeout=900)
+    rc, out = sh("ulimit -v 25000000; exec " + " ".join("'%s'" % a for a in args), cwd=COQ, timeout=900)
     src = strip_coq_comments(open(vfile).read())
     names = re.findall(r"Print Assumptions\s+([A-Za-z0-9_'.]+)\s*\.", src)
     blocks = []
